@@ -4,6 +4,7 @@ From BBF Require Import Base.Prelude Base.Names Base.Bits Spec.Sem
      Proofs.ExprProofs Proofs.TableProofs Proofs.QuantProofs Proofs.NfProofs Proofs.DdProofs Proofs.BddProofs Proofs.BddOps
      Proofs.ConvProofs Proofs.RenderProofs Proofs.EnumProofs.
 From BBF Require Import Model.Lexer Model.Parser Model.Display Model.Render Model.Csv Model.Prog Proofs.ProgProofs Proofs.ConvChain Proofs.OpsObjects.
+From BBF Require Import Model.Iter Model.Extra Proofs.ExtraProofs.
 Theorem C08_expr_sem : forall e m v, sem v (e_substitute e m) = sem (subst_env_e m v) e.
 Proof. exact sem_substitute. Qed.
 Print Assumptions C08_expr_sem.
@@ -42,6 +43,28 @@ Proof.
   exists kg. split; auto. apply filter_In in Hkg. tauto.
 Qed.
 Print Assumptions C08_bdd_key_stays_only_if_mentioned.
+
+(* ---- Expression::rename_literals: substitution of variables by variables (Model/Extra.v) ---- *)
+Theorem C08_rename_is_substitution : forall e m, e_rename e m = e_substitute e (map (fun kv => (fst kv, Lit (snd kv))) m).
+Proof. exact rename_is_substitute. Qed.
+Print Assumptions C08_rename_is_substitution.
+
+(* simultaneous: every variable is looked up once, in the original mapping (a swap swaps) *)
+Theorem C08_rename_sem : forall e m v, sem v (e_rename e m) = sem (fun x => v (rn m x)) e.
+Proof. exact rename_sem. Qed.
+Print Assumptions C08_rename_sem.
+
+Theorem C08_rename_variables : forall e m, occurrences (e_rename e m) = map (rn m) (occurrences e).
+Proof. exact rename_occurrences. Qed.
+Print Assumptions C08_rename_variables.
+
+Theorem C08_rename_empty_and_shape : forall e m, e_rename e [] = e /\ size (e_rename e m) = size e.
+Proof. intros e m. exact (conj (rename_nil e) (rename_size e m)). Qed.
+Print Assumptions C08_rename_empty_and_shape.
+
+Example C08_rename_example :
+  e_rename (And [Lit [97%N]; Not (Lit [98%N])]) [([97%N], [98%N]); ([98%N], [97%N])] = And [Lit [98%N]; Not (Lit [97%N])].
+Proof. reflexivity. Qed.
 
 Example C08_example :
   let ab := tabulate [[97%N]; [98%N]] (fun rho => evaluate (And [Lit [97%N]; Lit [98%N]]) rho) in
